@@ -39,11 +39,18 @@ Outcomes(sw, A) ==
 \* "not" (and leave the machine running), and the last one must admit an outcome that leads to `final`.
 \* (Stated without recursion: TLC evaluates a recursion of depth n over the sweeps in quadratic time, and a run
 \* that does not converge has maxiter + 1 = 10 001 sweeps.)
+\* A run that RETURNED may have gone on after a sweep that already met the requested tolerance (an implementation is
+\* free to be stricter than asked; the statement of C03 forbids returning EARLY - an intermediate iterate - not late):
+\* its earlier sweeps need only have been performed.  That they were in fact all unconverged is recorded as
+\* note.C03.ReturnedAtFirstConverged (evidence, never a verdict).
 Explains(sws, A, j0, final) ==
   LET n == Len(sws) IN
   /\ n >= 1
-  /\ \A j \in 1..(n - 1) : "not" \in Outcomes(sws[j], A) /\ Sol!PcStep(j - 1, "not", A.maxiter) = "run"
+  /\ \A j \in 1..(n - 1) :
+        /\ sws[j].ok
+        /\ final # "returned" => ("not" \in Outcomes(sws[j], A) /\ Sol!PcStep(j - 1, "not", A.maxiter) = "run")
   /\ \E o \in Outcomes(sws[n], A) : Sol!PcStep(n - 1, o, A.maxiter) = final
+AtFirstConverged(sws, A) == \A j \in 1..(Len(sws) - 1) : "not" \in Outcomes(sws[j], A)
 
 Final(c) == IF c.end.kind = "return" THEN "returned"
             ELSE IF c.end.exc = "RuntimeError" THEN "noconv"
@@ -61,8 +68,10 @@ CaseClauses(c) ==
      Cl("C03.ExcClass", c.end.kind = "raise", c.end.exc \in {"RuntimeError", "ValueError"}),
      Cl("C03.Terminates", TRUE, n <= A.maxiter + 1 /\ n >= 1),
      \* the recorded sweeps, classified by the exact stopping rule, are a behaviour of Solver.tla
-     \* ending in the observed way: not earlier, not later, not an intermediate iterate
+     \* ending in the observed way: not earlier, not an intermediate iterate; a RuntimeError only when no sweep within
+     \* maxiter met the requested tolerance
      Cl("C03.Sweep.Machine", fin /\ n >= 1 /\ Final(c) # "other", Explains(sws, A, 1, Final(c))),
+     Cl("note.C03.ReturnedAtFirstConverged", fin /\ n >= 1 /\ Final(c) = "returned", AtFirstConverged(sws, A)),
      Cl("C03.Sweep.Chain", fin,
         \A j \in 1..(n - 1) : sws[j + 1].v0 = sws[j].v1 /\ sws[j + 1].i0 = sws[j].i1),
      Cl("C03.Returned.IsIterate", fin /\ c.end.kind = "return" /\ n >= 1,
@@ -73,7 +82,7 @@ CaseClauses(c) ==
   >>
 
 AllClauseNames == {"C03.NoNaN", "C03.ExcClass", "C03.Terminates", "C03.Sweep.Machine", "C03.Sweep.Chain",
-                   "C03.Returned.IsIterate", "C03.MaxIter", "events"}
+                   "C03.Returned.IsIterate", "C03.MaxIter", "note.C03.ReturnedAtFirstConverged", "events"}
 
 RECURSIVE SetToSeq(_)
 SetToSeq(X) == IF X = {} THEN <<>> ELSE LET x == CHOOSE x \in X : TRUE IN <<x>> \o SetToSeq(X \ {x})
